@@ -36,6 +36,7 @@ type RTPkgReport struct {
 	Funcs      []string `json:"funcs"`
 	OneOf      []string `json:"one_of"`
 	UsesSync   bool     `json:"uses_sync"`
+	Accesses   int      `json:"accesses_reported"`
 }
 
 // InstrumentGenerated inserts statement-level yields, pins map iteration order and
@@ -150,7 +151,16 @@ func (y *rtWalker) run() {
 		for _, st := range list {
 			id := len(y.rep.Yields) + 1
 			y.rep.Yields = append(y.rep.Yields, YSite{ID: id, File: w.rel, Func: fn, Line: w.pkg.Fset.Position(st.Pos()).Line})
-			w.es.insert(w.off(st.Pos()), fmt.Sprintf("verifhook.Y(%d, %d); ", y.rep.PkgID, id))
+			text := fmt.Sprintf("verifhook.Y(%d, %d); ", y.rep.PkgID, id)
+			for _, a := range y.stmtAccesses(st) {
+				fnName := "R"
+				if a.write {
+					fnName = "W"
+				}
+				text += fmt.Sprintf("verifhook.%s(%d, %d, %s, %q); ", fnName, y.rep.PkgID, id, a.root, a.loc)
+				y.rep.Accesses++
+			}
+			w.es.insert(w.off(st.Pos()), text)
 			y.needHook = true
 		}
 	}
